@@ -31,16 +31,39 @@ pub struct RunnerHandler {
     pub st: Mutex<State>,
 }
 
-fn copy_dir(src: &Path, dst: &Path) -> std::io::Result<()> {
+/// Copies the database directory while the program's own blocking-pool file operations (a vacuum's `remove_dir_all`, a
+/// write in flight of another task) may still be running: an entry that vanishes between the listing and the copy is
+/// skipped (that is the crash state "the unlink had already happened"), any other error fails the copy.
+fn copy_dir(src: &Path, dst: &Path, vanished: &mut usize) -> std::io::Result<()> {
+    use std::io::ErrorKind::NotFound;
     std::fs::create_dir_all(dst)?;
-    for e in std::fs::read_dir(src)? {
-        let e = e?;
+    let rd = match std::fs::read_dir(src) {
+        Ok(rd) => rd,
+        Err(e) if e.kind() == NotFound => {
+            *vanished += 1;
+            return Ok(());
+        }
+        Err(e) => return Err(e),
+    };
+    for e in rd {
+        let e = match e {
+            Ok(e) => e,
+            Err(e) if e.kind() == NotFound => {
+                *vanished += 1;
+                continue;
+            }
+            Err(e) => return Err(e),
+        };
         let p = e.path();
         let d = dst.join(e.file_name());
         if p.is_dir() {
-            copy_dir(&p, &d)?;
+            copy_dir(&p, &d, vanished)?;
         } else {
-            std::fs::copy(&p, &d)?;
+            match std::fs::copy(&p, &d) {
+                Ok(_) => {}
+                Err(e) if e.kind() == NotFound => *vanished += 1,
+                Err(e) => return Err(e),
+            }
         }
     }
     Ok(())
@@ -67,17 +90,22 @@ impl Handler for RunnerHandler {
         let seq = st.crash_seq;
         st.crash_seq += 1;
         let snap = dst.join(format!("{seq:05}"));
+        let mut vanished = 0usize;
         let ok = if src.exists() {
-            copy_dir(&src, &snap).is_ok()
+            copy_dir(&src, &snap, &mut vanished).is_ok()
         } else {
             false
         };
+        // length of the live manifest at this step, independent of whether the copy succeeded (the start of the record in
+        // flight for the torn variants of the next `manifest_append.written`)
+        let manifest_len = std::fs::metadata(src.join("manifest.json")).map(|m| m.len()).ok();
         let rel = path
             .strip_prefix(&src)
             .map(|p| p.to_string_lossy().to_string())
             .unwrap_or_else(|_| path.to_string_lossy().to_string());
         st.crash_points
-            .push(json!({"seq": seq, "step": step, "path": rel, "snap": snap.to_string_lossy(), "copied": ok}));
+            .push(json!({"seq": seq, "step": step, "path": rel, "snap": snap.to_string_lossy(), "copied": ok,
+                         "manifest_len": manifest_len, "vanished": vanished}));
     }
 
     fn fault(&self, op: &str, chunk_idx: usize, is_end: bool) -> Option<Fault> {
